@@ -64,19 +64,38 @@ func (s *Session) MICParams(fcnt32 uint32, p TxParams) spec.DataMICParams {
 // Seal runs the sender pipeline on a plaintext frame value. stage names the
 // failing step.
 func Seal(s *Session, phy *lorawan.PHYPayload, p TxParams) (wire []byte, stage string, err error) {
+	return SealOrder(s, phy, p, false)
+}
+
+// SealOrder is Seal with a choice of which of the two encryption steps runs
+// first (both orders are legal: the steps are independent).
+func SealOrder(s *Session, phy *lorawan.PHYPayload, p TxParams, frmFirst bool) (wire []byte, stage string, err error) {
 	mp := phy.MACPayload.(*lorawan.MACPayload)
 	uplink := phy.MHDR.MType == lorawan.UnconfirmedDataUp || phy.MHDR.MType == lorawan.ConfirmedDataUp
-	if s.V11 {
-		if err := phy.EncryptFOpts(lorawan.AES128Key(s.NwkSEnc)); err != nil {
-			return nil, "EncryptFOpts", err
-		}
-	}
 	key := s.AppS
 	if mp.FPort != nil && *mp.FPort == 0 {
 		key = s.NwkSEnc
 	}
-	if err := phy.EncryptFRMPayload(lorawan.AES128Key(key)); err != nil {
-		return nil, "EncryptFRMPayload", err
+	encFOpts := func() error {
+		if s.V11 {
+			return phy.EncryptFOpts(lorawan.AES128Key(s.NwkSEnc))
+		}
+		return nil
+	}
+	if frmFirst {
+		if err := phy.EncryptFRMPayload(lorawan.AES128Key(key)); err != nil {
+			return nil, "EncryptFRMPayload", err
+		}
+		if err := encFOpts(); err != nil {
+			return nil, "EncryptFOpts", err
+		}
+	} else {
+		if err := encFOpts(); err != nil {
+			return nil, "EncryptFOpts", err
+		}
+		if err := phy.EncryptFRMPayload(lorawan.AES128Key(key)); err != nil {
+			return nil, "EncryptFRMPayload", err
+		}
 	}
 	if uplink {
 		if err := phy.SetUplinkDataMIC(s.MACVersion(), p.ConfFCnt, p.TxDR, p.TxCh, lorawan.AES128Key(s.FNwkSInt), lorawan.AES128Key(s.SNwkSInt)); err != nil {
@@ -110,22 +129,36 @@ func Validate(s *Session, phy *lorawan.PHYPayload, fcnt32 uint32, p TxParams) (b
 
 // Open decrypts a validated frame: FOpts then FRMPayload.
 func Open(s *Session, phy *lorawan.PHYPayload) (stage string, err error) {
+	return OpenOrder(s, phy, false)
+}
+
+// OpenOrder is Open with a choice of which decryption step runs first.
+func OpenOrder(s *Session, phy *lorawan.PHYPayload, frmFirst bool) (stage string, err error) {
 	mp, ok := phy.MACPayload.(*lorawan.MACPayload)
 	if !ok {
 		return "type", fmt.Errorf("not a data frame: %T", phy.MACPayload)
 	}
-	if s.V11 {
-		if err := phy.DecryptFOpts(lorawan.AES128Key(s.NwkSEnc)); err != nil {
-			return "DecryptFOpts", err
-		}
-	} else {
-		if err := phy.DecodeFOptsToMACCommands(); err != nil {
-			return "DecodeFOptsToMACCommands", err
-		}
-	}
 	key := s.AppS
 	if mp.FPort != nil && *mp.FPort == 0 {
 		key = s.NwkSEnc
+	}
+	fopts := func() (string, error) {
+		if s.V11 {
+			return "DecryptFOpts", phy.DecryptFOpts(lorawan.AES128Key(s.NwkSEnc))
+		}
+		return "DecodeFOptsToMACCommands", phy.DecodeFOptsToMACCommands()
+	}
+	if frmFirst {
+		if err := phy.DecryptFRMPayload(lorawan.AES128Key(key)); err != nil {
+			return "DecryptFRMPayload", err
+		}
+		if st, err := fopts(); err != nil {
+			return st, err
+		}
+		return "", nil
+	}
+	if st, err := fopts(); err != nil {
+		return st, err
 	}
 	if err := phy.DecryptFRMPayload(lorawan.AES128Key(key)); err != nil {
 		return "DecryptFRMPayload", err
